@@ -19,7 +19,7 @@ PROP = dict(
         obl('C06.batch.model', B, ['EPV.C05.call_getElem?', 'EPV.C05.call_perm', 'EPV.C05.call_append',
                                    'EPV.C05.call_replicate', 'EPV.C05.call_value_batch_independent']),
         # the real code
-        obl('C06.batch.real', oracle=[o_c06.batch, o_c06.eppiston_batch, o_c06.ie_batch, o_c06.r2d_fan_order]),
+        obl('C06.batch.real', oracle=[o_c06.batch, o_c06.eppiston_batch, o_c06.ie_batch, o_c06.r2d_fan_order, o_c06.guderley_batch]),
         obl('C06.history.real', oracle=o_c06.history),
         obl('C06.shared_solver.real', oracle=o_c06.shared_solver),
     ],
